@@ -9,3 +9,5 @@ def run(ctx, rep):
     args.rule_forwarded_trans(mod, rep)
     cond.rule_refine_budget(mod, rep)
     cond.rule_refine_fresh(mod, rep)
+    from ..rules import misc
+    misc.rule_dense_stride(mod, rep)
